@@ -442,7 +442,7 @@ class ModelInputArrayBijector:
       )
 
     if spec.scale == pyvizier.ScaleType.LOG:
-      if low < 0 or high < 0:
+      if low <= 0 or high <= 0:
         raise ValueError(
             'Log scale requires both parameter boundaries to be positive,'
             f' though low bound is {low} and high bound is {high}.'
